@@ -488,7 +488,7 @@ ly_pututf8(char *dst, uint32_t value, size_t *bytes_written)
 
         (*bytes_written) = 3;
     } else if (value < 0x10fffe) {
-        if ((value & 0xffe) == 0xffe) {
+        if ((value & 0xfffe) == 0xfffe) {
             /* exclude noncharacters %xFFFE-FFFF, %x1FFFE-1FFFF, %x2FFFE-2FFFF, %x3FFFE-3FFFF, %x4FFFE-4FFFF,
              * %x5FFFE-5FFFF, %x6FFFE-6FFFF, %x7FFFE-7FFFF, %x8FFFE-8FFFF, %x9FFFE-9FFFF, %xAFFFE-AFFFF,
              * %xBFFFE-BFFFF, %xCFFFE-CFFFF, %xDFFFE-DFFFF, %xEFFFE-EFFFF, %xFFFFE-FFFFF, %x10FFFE-10FFFF */
